@@ -62,25 +62,16 @@ def py_int_of_str(I, node, s, st):
                     else:
                         yield st3, I.exc('ValueError', node)
         return
+    # native (unbounded) string: int() is the pair of uninterpreted functions (accepts?, value).
+    # Deterministic, hence sound for relating two calls on the same text; nothing is assumed
+    # about which texts are accepted.
     e = s.expr
-    RS = z3.Range('0', '9')
-    plain = z3.InRe(e, z3.Plus(RS))
-    signed = z3.InRe(e, z3.Concat(z3.Union(z3.Re('-'), z3.Re('+')), z3.Plus(RS)))
-    for st1, b in I.split(st, plain):
-        if b:
-            yield st1, SInt(z3.StrToInt(e))
-            continue
-        for st2, b2 in I.split(st1, signed):
-            if b2:
-                v = z3.StrToInt(z3.SubString(e, 1, z3.Length(e) - 1))
-                yield st2, SInt(z3.If(z3.SubString(e, 0, 1) == z3.StringVal('-'), -v, v))
-                continue
-            for st3, b3 in I.split(st2, PYINT_OK(e)):
-                if b3:
-                    I.trusted.add('int(): strings other than [+-]?[0-9]+ are accepted/rejected by an uninterpreted (deterministic) predicate')
-                    yield st3, SInt(PYINT_VAL(e))
-                else:
-                    yield st3, I.exc('ValueError', node)
+    I.trusted.add('int() on strings of unknown length: uninterpreted deterministic (accepted?, value) pair')
+    for st3, b3 in I.split(st, PYINT_OK(e)):
+        if b3:
+            yield st3, SInt(PYINT_VAL(e))
+        else:
+            yield st3, I.exc('ValueError', node)
 
 
 def int_to_str(x):
@@ -807,6 +798,7 @@ def list_method(I, node, lref, meth, args, kwargs, st):
                 yield st1, I.exc('IndexError', node)
                 continue
             v = from_z(o.e[n - 1], o.ety)
+            I.snoc_lemma(st1, o.e)
             o2 = st1.mut(lref.addr)
             o2.e = z3.Extract(o.e, 0, n - 1)
             yield st1, v
